@@ -3,6 +3,7 @@ import ChythonModel.Spec.RdkitConvention
 import ChythonModel.Props.C12
 import ChythonModel.Proofs.C20Parity
 import ChythonModel.Proofs.C20Graph
+import ChythonModel.Proofs.C20Bonds
 /-!
 # C20 — RDKit bridge preserves structure and configuration in both directions
 
@@ -544,5 +545,41 @@ theorem from_label_is_tag (env : List Nat) (hl : env.length = 3 ∨ env.length =
       have := translateTetra_perm4 w x y z hnd [w, x, y, z] (List.Perm.refl _) isH none s
       rw [this, relOdd_self4 hnd _ (List.Perm.refl _)]
       simp
+
+/-! ## 8. the neighbour order `to` hands to the sign translation is an arrangement of the atom's neighbours -/
+
+/-- `Graph.bonds()` lists every bond exactly once: for a well-formed `_bonds` (unique keys, no loops, neighbours are atoms,
+symmetric) the other ends of the entries touching `x` are a permutation of `x`'s neighbour keys -/
+theorem bonds_once (m : Mol) (wf : AdjWF m.adj) (x : Nat) :
+    ((m.bonds).filterMap (otherEnd x)).Perm (nbrKeys m.adj x) := bonds_other_perm m wf x
+
+/-- hence after the bond loop of `to_rdkit_molecule` (whatever the direction rule exchanged) RDKit's neighbour list of the atom,
+mapped back to chython numbers, is an arrangement of the atom's chython neighbours: the hypothesis `env.Perm …` of the
+round-trip theorems holds for the very list the model passes to `translateTetra` -/
+theorem to_env_is_arrangement (m : Mol) (wf : AdjWF m.adj) (bonds0 : List RBond)
+    (hb : m.bonds.mapM (toBond m m.ids) = .ok bonds0) (x i : Nat) (hx : index? m.ids x = some i) :
+    ∃ nb, nbrNumbers m.ids bonds0 i = .ok nb ∧ nb.Perm (nbrKeys m.adj x) :=
+  ⟨_, to_neighbours m m.ids m.bonds bonds0 hb (bonds_noloop m wf) x i hx, bonds_other_perm m wf x⟩
+
+example : AdjWF [(1, [(2, ⟨1, none⟩), (3, ⟨2, none⟩)]), (2, [(1, ⟨1, none⟩)]), (3, [(1, ⟨2, none⟩)])] :=
+  ⟨by decide, by decide, by decide, by decide, by
+    intro n k h
+    by_cases h1 : n = 1
+    · subst h1
+      have : k = 2 ∨ k = 3 := by simpa [nbrKeys, List.lookup] using h
+      rcases this with rfl | rfl <;> decide
+    · by_cases h2 : n = 2
+      · subst h2
+        have : k = 1 := by simpa [nbrKeys, List.lookup] using h
+        subst this; decide
+      · by_cases h3 : n = 3
+        · subst h3
+          have : k = 1 := by simpa [nbrKeys, List.lookup] using h
+          subst this; decide
+        · exfalso
+          have e1 : (n == 1) = false := by simp [h1]
+          have e2 : (n == 2) = false := by simp [h2]
+          have e3 : (n == 3) = false := by simp [h3]
+          simp [nbrKeys, List.lookup, e1, e2, e3] at h⟩
 
 end ChythonModel.Props.C20
